@@ -240,6 +240,36 @@ impl<'a, 'tcx> BodyCx<'a, 'tcx> {
                                         let _ = write!(o, ",\"bytes\":\"{}\"", hex(&b));
                                     }
                                 }
+                                // &&str / &&[u8]: follow the inner fat pointer to the literal
+                                let inner_is_str_ref = match ty.kind() {
+                                    ty::Ref(_, t, _) => match t.kind() {
+                                        ty::Ref(_, t2, _) => t2.is_str(),
+                                        _ => false,
+                                    },
+                                    _ => false,
+                                };
+                                if inner_is_str_ref {
+                                    if let Some(rustc_middle::mir::interpret::GlobalAlloc::Memory(a)) = self.tcx.try_get_global_alloc(prov.alloc_id()) {
+                                        let a = a.inner();
+                                        let base = off.bytes() as usize;
+                                        if let Some((_, inner_prov)) = a.provenance().ptrs().iter().find(|(o2, _)| o2.bytes() as usize == base) {
+                                            let all = a.inspect_with_uninit_and_ptr_outside_interpreter(0..a.len());
+                                            if all.len() >= base + 16 {
+                                                let mut lenb = [0u8; 8];
+                                                lenb.copy_from_slice(&all[base + 8..base + 16]);
+                                                let n = u64::from_le_bytes(lenb) as usize;
+                                                let mut offb = [0u8; 8];
+                                                offb.copy_from_slice(&all[base..base + 8]);
+                                                let inner_off = u64::from_le_bytes(offb) as usize;
+                                                if let Some(ib) = self.alloc_bytes(inner_prov.alloc_id(), inner_off as u64, Some(n as u64)) {
+                                                    if let Ok(st) = std::str::from_utf8(&ib) {
+                                                        let _ = write!(o, ",\"str\":{}", js(st));
+                                                    }
+                                                }
+                                            }
+                                        }
+                                    }
+                                }
                             }
                             ConstValue::Indirect { alloc_id, offset } => {
                                 if let Some(b) = self.alloc_bytes(alloc_id, offset.bytes(), None) {
